@@ -9,6 +9,12 @@ from vlib import core, gen_codec
 
 DRV = ("codec", ["drv_codec.c"])
 SPEC = "trace/CodecTrace.tla"
+# second part (binary fields and binary curves): harness/drv_codec2.c -> trace/Codec2Trace (model/Codec2Spec, model/CodecB)
+DRV2 = ("codec2", ["drv_codec2.c"])
+SPEC2 = "trace/Codec2Trace.tla"
+READS2 = ("fb_read_bin", "fb_read_str", "eb_read_bin")
+# curve identifiers eb_param_set accepts in the pinned build (include/relic_eb.h: NIST_B283 = 8, NIST_K283 = 9)
+EXPECTED_EB = {"std256": ["E8", "E9"]}
 READS = ("bn_read_bin", "bn_read_raw", "bn_read_str", "fp_read_bin", "fp_read_str", "fp2_read_bin",
          "fp12_read_bin", "ep_read_bin", "ep_upk", "ep2_read_bin", "ed_read_bin")
 
@@ -98,6 +104,90 @@ def probe_ed(cfg, wd, rng, quick):
     return ed, pts
 
 
+def nontrivial2(e):
+    op = e.get("op", "")
+    if op in READS2:
+        return len(e.get("in", [1])) > 0
+    if op in ("curve_probe", "restart", "BADSEL"):
+        return False
+    if op in ("eb_pck", "eb_upk", "eb_size_bin", "fb_size_str"):
+        return True
+    return e.get("len", 1) > 0
+
+
+def probe2(cfg, wd, sels):
+    """which binary curves / fields this build selects, and their parameters (input discovery)"""
+    from vlib import gen_codec2
+    bdir = core.build_relic(cfg)
+    exe = core.cc_harness(cfg, DRV2[0], DRV2[1], bdir=bdir)
+    d = os.path.join(wd, "probe2b-" + cfg)
+    os.makedirs(d, exist_ok=True)
+    cp = os.path.join(d, "cases.txt")
+    with open(cp, "w") as f:
+        f.write("\n".join(gen_codec2.probe_cases(sels)) + "\n")
+    evs = core.run_driver(exe, cp, os.path.join(d, "trace.ndjson"), timeout=300)
+    return [e for e in evs if e.get("op") == "curve_probe" and e.get("ok") == 1]
+
+
+def MC_RUNS2(quick):
+    runs = [("MCCodecB", "MCCodecB", "binary format: every curve y^2+xy=x^3+ax^2+b over GF(8), GF(16): trace criterion, packed "
+             "bit, encode/decode round trips, all strings of length <= 1 and tag x bytes below 2^(m+1) (+128, 255) of "
+             "length 2, 3: accepted = canonical; field elements binary and text in every power-of-two radix", False)]
+    if not quick:
+        runs += [("MCCodecB", "MCCodecB_m5", "GF(8) (second polynomial), GF(32) (two polynomials), a in 0..3, every b", False)]
+    return runs
+
+
+def part2(conf, ev, wd, rng, tier):
+    """binary fields and binary curves (fb_*, eb_*): the pinned build GF(2^283) with NIST-B283 and NIST-K283, and the
+    tiny world GF(2^17) of C16"""
+    from vlib import gen_codec2 as g2
+    quick = tier == "quick"
+    ev.cov["rule_part2"] = (
+        "binary fields / curves: field elements (C16 corner set + seeded random) through fb_write_bin (lengths 0, 1, fb-1, fb, "
+        "fb+1, 2fb), fb_read_bin (every length 0..fb+2, every single coefficient at or above x^m, a+f, all ones), text in "
+        "every radix 2,4,..,64 (size, buffer size-1/size/size+1, read back; no terminator, lower case, leading zeros, sign, "
+        "foreign characters, degree m-1 / m / longer than the integer precision) and 24 invalid radices; points {O, (0,sqrt b), "
+        "+-G, 2G..5G, -2G, G+T, first points over 1, x^(m-1)+5, 2^m-40, random +-} x {affine, retagged, Lopez-Dahab z in {2,3,"
+        "all-ones,x^(m-1),random}, lambda form} x pack 0/1 x buffer 0,1,size-1,size,size+1; eb_pck/eb_upk in and out of place; "
+        "strings: both tags over x, 04xy, opposite, wrong, swapped ordinate, every tag byte on bodies of length 1, fb+1, 2fb+1, "
+        "every length 0..2fb+3 x 5 tags, single-byte replacements 00/FF/^01, leading/trailing bytes, hybrid tags, unreduced "
+        "coordinates (single high bits, x+f, y+f), abscissae without a point, x = 0 with both bits; tiny world GF(2^17): all "
+        "1-byte strings, dense samples of compressed / uncompressed / random strings, abscissae (thorough: every one), points")
+    # the shipped configuration: both binary curves
+    pr = probe2("std256", wd, ["E%d" % i for i in range(1, 40)])
+    got = [e["sel"] for e in pr if e.get("curve") == 1]
+    ev.cov.setdefault("curves", {})["std256-eb"] = got
+    cases = []
+    for sel in EXPECTED_EB["std256"]:
+        if sel not in got:
+            cases.append("eb_size_bin %s inf 0" % sel)       # BADSEL: a curve of the pinned build can no longer be selected
+    for j, e in enumerate(x for x in pr if x.get("curve") == 1):
+        cv = g2.curve_from_probe(e)
+        cases += g2.gen_eb(cv, rng, tier)
+        cases += g2.gen_fb(cv.F, e["digs"], rng, tier, budget=1.0 if j == 0 else 0.5)
+    conf.run("std256-eb", "std256", DRV2[0], DRV2[1], cases, SPEC2, nontrivial=nontrivial2, min_per_shard=150, heap="2g")
+    # the tiny world GF(2^17), 8-bit digits
+    csel, psel = g2.tiny_sels()
+    pr = probe2("w8p8", wd, csel + psel)
+    if len(pr) < len(csel) + len(psel):
+        raise core.InfraError("tiny world GF(2^17): %d of %d selections accepted" % (len(pr), len(csel) + len(psel)))
+    cases = []
+    for e in pr:
+        if e.get("curve") == 1:
+            cv = g2.curve_from_probe(e)
+            cases += g2.gen_eb(cv, rng, tier)
+            cases += g2.gen_tiny_eb(cv, rng, tier)
+        else:
+            F = g2.field_from_probe(e)
+            k = psel.index(e["sel"])
+            if quick and k not in (0, 4):
+                continue
+            cases += g2.gen_fb(F, e["digs"], rng, tier, budget=1.0 if k == 0 else 0.5)
+            cases += g2.gen_tiny_fb(F, rng, tier)
+    conf.run("w8p8-eb", "w8p8", DRV2[0], DRV2[1], cases, SPEC2, nontrivial=nontrivial2, min_per_shard=400, heap="2g")
+
+
 def MC_RUNS(quick):
     runs = [("MCCodec", "MCCodec", "F_251, y^2=x^3+x+60 (order 2*127): all byte strings of length <= 2 and all 3-byte "
              "strings with first byte in {0,2,3,4,5,255} through every decoder; all integers |v| <= 1023 x radix 2..64; "
@@ -119,7 +209,16 @@ def run(tier, seed):
     wd = core.workdir("C07", tier)
     rng = random.Random(seed)
     quick = tier == "quick"
+    # second part (binary fields / curves): gated until it passes on the unchanged tree
+    part2_on = os.environ.get("C07_PART2") == "1"
+    only2 = part2_on and os.environ.get("C07_PART2_ONLY") == "1"      # debugging aid: the second part alone
     ev.cov["trusted_base"] = core.TRUSTED
+    if only2:
+        ev.cov["trusted_base"] = core.TRUSTED + ["GF2m.java evaluation accelerator (cross-checked by C16)"]
+        core.run_models(ev, MC_RUNS2(quick), parallel=2)
+        conf = core.Conformance("C07", ev, wd)
+        part2(conf, ev, wd, rng, tier)
+        return conf.finish()
     ev.cov["rule"] = ("per type (bn bin/raw/text, fp bin/text, fp2/fp12 uncompressed, ep and ep2 compressed/uncompressed, ep_pck/upk): "
                       "valid values incl. zero/identity/maximal, every buffer length around the advertised size, byte strings of "
                       "every length 0..L+2, every tag byte on a valid body, single-byte replacements 00/FF/^01, coordinates "
@@ -132,7 +231,7 @@ def run(tier, seed):
 
     def models():
         try:
-            core.run_models(ev, MC_RUNS(quick), parallel=2)
+            core.run_models(ev, MC_RUNS(quick) + (MC_RUNS2(quick) if part2_on else []), parallel=2)
         except Exception as ex:           # re-raised below
             mc_err.append(ex)
     th = threading.Thread(target=models)
@@ -189,6 +288,9 @@ def run(tier, seed):
                 cases += gen_codec.gen_ed(ed, ptse, rng, tier)
             if cases:
                 conf.run(cfg, cfg, DRV[0], DRV[1], cases, SPEC, nontrivial=nontrivial, min_per_shard=300)
+    if part2_on:
+        ev.cov["trusted_base"] = core.TRUSTED + ["GF2m.java evaluation accelerator (cross-checked by C16)"]
+        part2(conf, ev, wd, rng, tier)
     th.join()
     if mc_err:
         raise mc_err[0]
